@@ -509,3 +509,16 @@ for _k, _cfg in PROPS.items():
                            "(tokio, dashmap, bytes, prost) as driven by ractor, and the harness's happens-before canaries.")
     if "sanitizers" not in _cfg["technique"]:
         _cfg["technique"] += "; plus compiler sanitizers (ThreadSanitizer, AddressSanitizer/LeakSanitizer) over slices of the same workloads and over quiet canary workloads"
+
+# ---- E-TCP: the cluster properties over real loopback TCP (listener, client_connect, socket halves), natively and under TSan
+_TCP_WHAT = ("E-TCP: two real NodeServers listening on loopback ports (dual-stack or 127.0.0.1), links opened with client_connect (once, twice, from both "
+             "sides at once, or through a cuttable, fragmenting TCP relay), a wrong-cookie node and raw-socket adversaries (unauthenticated frames, oversize "
+             "length prefixes, garbage) on the same listeners, lanes of casts/calls from tasks and OS threads; real clock, multi-thread runtime; only "
+             "deadline-free clauses are verdicts (order, duplicates, misdelivery, reply values, fence-based completeness, effects of unauthenticated peers, "
+             "two listed links, a valid link torn down)")
+for _k in ("C17", "C18", "C19", "C20"):
+    PROPS[_k]["runs"].append({"engine": "tcp", "quick": 160, "thorough": 24000, "timeout_s": 14400, "what": _TCP_WHAT})
+    PROPS[_k]["runs"].append({"engine": "tcp", "build": "tsan", "quick": 48, "thorough": 4800, "timeout_s": 14400,
+                              "what": "E-TCP scenarios under ThreadSanitizer (the cluster code on a multi-thread runtime with real sockets)"})
+    PROPS[_k]["level_note"] += (" E-TCP runs drive the same property over real loopback TCP (listener, client_connect, NetworkStream halves); what did not happen "
+                                "within a wall-clock bound there is reported as inconclusive, never as a violation.")
